@@ -149,6 +149,12 @@ struct Inner {
     abandons: Vec<Abandon>,
     stats: SchedStats,
     last_progress: Instant,
+    /// threads currently parked inside `wait_for_baton` (a thread that is runnable but not here
+    /// and not `current` is blocked on something real, e.g. a lock of the library)
+    parked: Vec<bool>,
+    /// OS thread ids (to look at a thread's kernel state) and consecutive "sleeping" observations
+    tids: Vec<i32>,
+    suspect: Vec<u32>,
 }
 
 pub struct Sched {
@@ -175,6 +181,9 @@ impl Sched {
                 abandons,
                 stats: SchedStats::default(),
                 last_progress: Instant::now(),
+                parked: vec![false; nthreads],
+                tids: vec![0; nthreads],
+                suspect: vec![0; nthreads],
             }),
             cv: Condvar::new(),
         }
@@ -194,25 +203,54 @@ impl Sched {
 
     fn wait_for_baton<'a>(&'a self, mut g: std::sync::MutexGuard<'a, Inner>, tid: usize) -> std::sync::MutexGuard<'a, Inner> {
         while g.current != tid {
-            let (ng, to) = self.cv.wait_timeout(g, Duration::from_millis(250)).unwrap();
+            g.parked[tid] = true;
+            let (ng, to) = self.cv.wait_timeout(g, Duration::from_millis(5)).unwrap();
             g = ng;
-            if g.current != tid && to.timed_out() && g.started && g.last_progress.elapsed() > TAKEOVER_AFTER {
-                // the holder is blocked on something real (not on the simulator): take over
-                let lowest_waiting = (0..g.runnable.len()).find(|t| g.runnable[*t] && *t != g.current);
-                if lowest_waiting == Some(tid) {
+            if g.current == tid || !to.timed_out() || !g.started {
+                continue;
+            }
+            let h = g.current;
+            if h >= g.runnable.len() || g.parked[h] {
+                // the holder has been chosen but has not woken up yet: it is on its way
+                continue;
+            }
+            // Is the holder blocked on something real (a lock of the library owned by a parked
+            // thread)? It is not parked here, so if the kernel says it sleeps, it waits for
+            // something the simulator does not own. Two observations in a row, or no progress for
+            // a long time, and the lowest really parked thread takes the baton over; if that one
+            // blocks too the next follows, until the owner of the lock runs again.
+            // (a thread that passes points is never suspected: between two points of a running
+            // call there are microseconds, not 10 ms)
+            let sleeping = g.last_progress.elapsed() > Duration::from_millis(10) && thread_sleeps(g.tids[h]);
+            if sleeping {
+                g.suspect[h] += 1;
+            } else {
+                g.suspect[h] = 0;
+            }
+            if g.suspect[h] >= 2 || g.last_progress.elapsed() > TAKEOVER_AFTER {
+                let lowest_parked = (0..g.runnable.len()).find(|t| g.runnable[*t] && g.parked[*t] && *t != h);
+                if lowest_parked == Some(tid) {
                     g.stats.takeovers += 1;
+                    g.suspect[h] = 0;
                     g.current = tid;
                     g.last_progress = Instant::now();
                     self.cv.notify_all();
                 }
             }
         }
+        g.parked[tid] = false;
         g
+    }
+
+    /// real time since any thread last passed a point (for the global watchdog)
+    pub fn stalled_for(&self) -> Duration {
+        self.inner.lock().unwrap().last_progress.elapsed()
     }
 
     /// every thread calls this first
     pub fn wait_start(&self, tid: usize) {
-        let g = self.inner.lock().unwrap();
+        let mut g = self.inner.lock().unwrap();
+        g.tids[tid] = unsafe { libc::syscall(libc::SYS_gettid) } as i32;
         let _g = self.wait_for_baton(g, tid);
     }
 
@@ -303,5 +341,19 @@ impl Sched {
     pub fn take_results(&self) -> (Vec<u8>, SchedStats) {
         let g = self.inner.lock().unwrap();
         (g.decisions.clone(), g.stats.clone())
+    }
+}
+
+/// kernel state of a thread of this process: true if it sleeps (blocked), false if it runs, is
+/// runnable, or cannot be determined
+fn thread_sleeps(tid: i32) -> bool {
+    if tid <= 0 {
+        return false;
+    }
+    let Ok(stat) = std::fs::read_to_string(format!("/proc/self/task/{}/stat", tid)) else { return false };
+    // "pid (comm) S ..." - comm may contain spaces and parentheses: take what follows the last ')'
+    match stat.rfind(')') {
+        Some(i) => stat[i + 1..].trim_start().starts_with('S'),
+        None => false,
     }
 }
